@@ -117,6 +117,7 @@ type genResult struct {
 	dropped int
 	ioErrs  int
 	log     []vfs.Call
+	misuse  []string
 }
 
 func choose0(*vsched.ChoicePoint) int { return 0 }
@@ -205,6 +206,7 @@ func gen1(root string, c caseSpec, snapshot string) genResult {
 		buf.Destroy()
 		vsched.Recv(buf.Stopped().Channel(), "driver.wait-stopped")
 	})
+	r.misuse = vfs.Misuse()
 	r.log = vfs.End()
 	r.status, r.detail = res.Status, res.Detail
 	m := hutil.Metrics(mf)
@@ -275,6 +277,11 @@ func runCase(c caseSpec) (string, string) {
 	case c.plan.Crash && !crashed:
 		// the crash point does not exist in this run (fewer syscalls than planned): nothing to check
 		return "", ""
+	case len(g1.misuse) > 0:
+		// a descriptor number closed twice: whichever goroutine was handed that number in between (Accept spilling a chunk, the
+		// upstream dial) loses its file, and its next write lands wherever the number points then - an altered chunk under a
+		// final name with no error counted
+		return "descriptor:closed-twice", fmt.Sprintf("%s: %s", c.desc, strings.Join(g1.misuse, "; "))
 	case g1.status != "ok":
 		return "gen1-" + g1.status, fmt.Sprintf("%s: first generation ended with %s: %s", c.desc, g1.status, firstLines(g1.detail, 6))
 	}
@@ -788,7 +795,7 @@ func enumerateKind(ctx *seq.Ctx, kind string) {
 				}
 				// (b) error at open / close / rename / fsync
 				ctx.Group(pfx + mode + "/failop")
-				for _, op := range []string{"openat", "close", "renameat", "fsync", "unlinkat"} {
+				for _, op := range []string{"openat", "close", "renameat", "fsync", "unlinkat", "read"} {
 					desc := fmt.Sprintf("%s/fail-%s", base, op)
 					occurs := false
 					for _, o := range ops {
